@@ -6,6 +6,7 @@ import (
 	"errors"
 	"fmt"
 	"math/rand"
+	"reflect"
 	"runtime"
 	"strings"
 	"sync"
@@ -58,6 +59,7 @@ type offer struct {
 	State  string `json:"state"`
 	ID     uint64 `json:"id"`
 	Failed bool   `json:"failed,omitempty"`
+	Raw    string `json:"-"`
 }
 
 // fakeRep is the FileReplicater double: records every file offered to "all members".
@@ -75,7 +77,7 @@ func (f *fakeRep) ReplicateFileToAllMembers(ctx context.Context, name string, da
 	json.Unmarshal(data, &p)
 	f.mu.Lock()
 	defer f.mu.Unlock()
-	f.offers = append(f.offers, offer{Seq: hist.Tick(), Name: name, State: p.State, ID: p.StateID, Failed: f.fail})
+	f.offers = append(f.offers, offer{Seq: hist.Tick(), Name: name, State: p.State, ID: p.StateID, Failed: f.fail, Raw: string(data)})
 	if f.fail {
 		return errors.New("c19: injected replication failure")
 	}
@@ -135,7 +137,10 @@ func (c *clus) AllocID() (uint64, error) {
 type storeRec struct {
 	ID     uint64            `json:"id"`
 	Labels map[string]string `json:"labels"`
-	Up     bool              `json:"up"`
+	// List, when set, is the ordered label list actually sent to pd (keys in any letter case, duplicate
+	// keys, empty values); otherwise the list is derived from Labels in the order zone, site, host.
+	List [][2]string `json:"label_list,omitempty"`
+	Up   bool        `json:"up"`
 }
 
 // regionRec is the harness' own record of the latest report delivered for one region.
@@ -184,18 +189,20 @@ type world struct {
 	regs   []*regionRec // ordered by start key
 	nextID uint64
 
-	last       pair
-	served     map[uint64]string // state id -> state, for every pair ever served in this history
-	idState    map[uint64]string // state id -> state, for every id seen anywhere (saved, offered, served)
-	kvSeen     int               // kv log events already folded into idState
-	offSeen    int
-	streak     int // consecutive eligible ticks without reaching sync
-	ep         *epoch
-	events     []interface{}
-	shape      []string
-	dead       bool // harness problem: stop this history
-	topoDone   bool // a split/merge happened in the current state-id epoch
-	forceEpoch int  // kind of the next report stream (-1 = free choice)
+	last        pair
+	served      map[uint64]string // state id -> state, for every pair ever served in this history
+	idState     map[uint64]string // state id -> state, for every id seen anywhere (saved, offered, served)
+	kvSeen      int               // kv log events already folded into idState
+	offSeen     int
+	streak      int // consecutive eligible ticks without reaching sync
+	ep          *epoch
+	events      []interface{}
+	shape       []string
+	dead        bool // harness problem: stop this history
+	topoDone    bool // a split/merge happened in the current state-id epoch
+	forceEpoch  int  // kind of the next report stream (-1 = free choice)
+	obsLabelKey string
+	obsHint     int32
 }
 
 func drConfig(tp, td int, asyncWait time.Duration, labelKey string) config.ReplicationModeConfig {
@@ -265,6 +272,7 @@ func (w *world) observe() (grpc pair, http pair) {
 	if h.Mode == modeDR {
 		http.State, http.ID = h.DrAutoSync.State, h.DrAutoSync.StateID
 	}
+	w.obsLabelKey, w.obsHint = st.GetDrAutoSync().GetLabelKey(), st.GetDrAutoSync().GetWaitSyncTimeoutHint()
 	// get-edit: a caller may do anything with the objects it was handed; the next answer must not care
 	st.Mode = pb.ReplicationMode_MAJORITY
 	if d := st.DrAutoSync; d != nil {
@@ -294,6 +302,7 @@ type saveEv struct {
 	P     pair   `json:"pair"`
 	Err   string `json:"err,omitempty"`
 	Fault string `json:"fault,omitempty"`
+	Raw   string `json:"-"`
 }
 
 func savesOf(log []kvx.Event) []saveEv {
@@ -304,7 +313,7 @@ func savesOf(log []kvx.Event) []saveEv {
 		}
 		var p persisted
 		json.Unmarshal([]byte(e.Value), &p)
-		out = append(out, saveEv{Seq: e.Seq, P: pair{Mode: modeDR, State: p.State, ID: p.StateID}, Err: e.Err, Fault: e.Fault})
+		out = append(out, saveEv{Seq: e.Seq, P: pair{Mode: modeDR, State: p.State, ID: p.StateID}, Err: e.Err, Fault: e.Fault, Raw: e.Value})
 	}
 	return out
 }
@@ -346,6 +355,32 @@ type cond struct {
 	Elapsed      bool `json:"async_wait_elapsed"`
 	AsyncAllowed bool `json:"async_allowed"`
 	CanRecover   bool `json:"both_dcs_below_replicas"`
+	// Ambiguous: the configuration is outside what the statement talks about (replica count <= 0,
+	// empty datacenter name): exercised, but the permission clauses are not judged
+	Ambiguous string `json:"ambiguous_config,omitempty"`
+}
+
+func labelsOf(s *storeRec) [][2]string {
+	if s.List != nil {
+		return s.List
+	}
+	var out [][2]string
+	for _, k := range []string{"zone", "site", "host"} {
+		if v, ok := s.Labels[k]; ok {
+			out = append(out, [2]string{k, v})
+		}
+	}
+	return out
+}
+
+// labelValue: first label whose key equals key ignoring letter case; "" when there is none.
+func labelValue(s *storeRec, key string) string {
+	for _, l := range labelsOf(s) {
+		if strings.EqualFold(l[0], key) {
+			return l[1]
+		}
+	}
+	return ""
 }
 
 // conditions evaluates the statement's predicates on the harness' own store table.
@@ -353,15 +388,25 @@ func (w *world) conditions(cfg config.ReplicationModeConfig) cond {
 	d := cfg.DRAutoSync
 	c := cond{TP: d.PrimaryReplicas, TD: d.DRReplicas}
 	for _, s := range w.stores {
-		if s.Up {
+		// a store is failed when it has been silent for WaitStoreTimeout; a timeout <= 0 makes every store failed
+		if s.Up && d.WaitStoreTimeout.Duration > 0 {
 			continue
 		}
-		switch s.Labels[d.LabelKey] {
-		case d.Primary:
+		// the datacenter of a store: label keys are case-insensitive and the first matching label
+		// counts (pd's label convention), datacenter names are compared exactly
+		v := labelValue(s, d.LabelKey)
+		if v == d.Primary {
 			c.DownPrimary++
-		case d.DR:
+		}
+		if v == d.DR {
 			c.DownDR++
 		}
+	}
+	switch {
+	case d.PrimaryReplicas <= 0 || d.DRReplicas <= 0:
+		c.Ambiguous = "non-positive-replicas"
+	case d.Primary == "" || d.DR == "":
+		c.Ambiguous = "empty-datacenter-name"
 	}
 	c.DCFailed = c.DownPrimary >= c.TP || c.DownDR >= c.TD
 	min := func(a, b int) int {
@@ -372,7 +417,7 @@ func (w *world) conditions(cfg config.ReplicationModeConfig) cond {
 	}
 	up := (c.TP - min(c.TP, c.DownPrimary)) + (c.TD - min(c.TD, c.DownDR))
 	c.Majority = 2*up > c.TP+c.TD
-	c.Elapsed = d.WaitAsyncTimeout.Duration == 0 // 0 = elapsed; 1 h = never elapses inside a history
+	c.Elapsed = d.WaitAsyncTimeout.Duration <= 0 // <= 0: has passed; 1 h: never passes inside a history
 	c.AsyncAllowed = c.DCFailed && c.Majority && c.Elapsed
 	c.CanRecover = c.DownPrimary < c.TP && c.DownDR < c.TD
 	return c
@@ -458,7 +503,7 @@ func (w *world) put(g *regionRec, hasStatus bool, id uint64, st pb.RegionReplica
 	}
 	w.cl.PutRegion(reg)
 	g.present, g.hasStatus, g.stID, g.st = true, hasStatus, id, st
-	if hasStatus && st == pb.RegionReplicationState_INTEGRITY_OVER_LABEL && id > g.okUnder {
+	if hasStatus && st == pb.RegionReplicationState_INTEGRITY_OVER_LABEL && id > g.okUnder && id < 1<<31 {
 		g.okUnder = id // state ids only grow: a late report under an older id does not undo "has reported under id"
 	}
 	w.r.Count("region_reports_delivered", 1)
@@ -472,11 +517,9 @@ func (w *world) setStore(s *storeRec, up bool) {
 	if !up {
 		t = t.Add(-100 * storeTimeout)
 	}
-	labels := make([]*metapb.StoreLabel, 0, len(s.Labels))
-	for _, k := range []string{"zone", "site", "host"} {
-		if v, ok := s.Labels[k]; ok {
-			labels = append(labels, &metapb.StoreLabel{Key: k, Value: v})
-		}
+	var labels []*metapb.StoreLabel
+	for _, l := range labelsOf(s) {
+		labels = append(labels, &metapb.StoreLabel{Key: l[0], Value: l[1]})
 	}
 	w.cl.PutStore(core.NewStoreInfo(&metapb.Store{Id: s.ID, Labels: labels, State: metapb.StoreState_Up}, core.SetLastHeartbeatTS(t)))
 }
@@ -718,6 +761,19 @@ func (w *world) call(ci callInfo, f func() error) error {
 		r.Violation("served-status-differs-between-grpc-and-http", fmt.Sprintf("GetReplicationStatus serves %v while GetReplicationStatusHTTP serves %v", post, httpPost), wit())
 	}
 
+	// the status served to stores names the label key of the configuration that was last accepted
+	if post.dr() {
+		want := w.cfg
+		if ci.kind == "config" && ci.newCfg != nil && err == nil {
+			want = *ci.newCfg
+		}
+		if w.obsLabelKey != want.DRAutoSync.LabelKey {
+			r.Violation("served-label-key-differs-from-accepted-config", fmt.Sprintf("%s: the status served with %v names label key %q, the accepted configuration says %q", ci.kind, post, w.obsLabelKey, want.DRAutoSync.LabelKey), wit())
+		}
+		if w.obsHint != int32(want.DRAutoSync.WaitSyncTimeout.Seconds()) {
+			r.Count("served_wait_sync_hint_differs_from_accepted_config(counted)", 1)
+		}
+	}
 	changed := post != pre
 	trans := "stay"
 	if changed {
@@ -781,6 +837,27 @@ func (w *world) call(ci callInfo, f func() error) error {
 		}
 		if !off {
 			r.Violation("served-not-offered-to-members:"+ci.kind, fmt.Sprintf("%v is served but was never handed to the file replicater", post), wit())
+		}
+		// what was handed to the members and what was written must be the same status, field by field
+		var offRaw, savRaw string
+		for _, o := range offers {
+			if o.ID == post.ID {
+				offRaw = o.Raw
+			}
+		}
+		for _, sv := range savesOf(log) {
+			if sv.P.ID == post.ID && (sv.Err == "" || sv.Fault == "lost-ack") {
+				savRaw = sv.Raw
+			}
+		}
+		if offRaw != "" && savRaw != "" {
+			var a, b map[string]interface{}
+			json.Unmarshal([]byte(offRaw), &a)
+			json.Unmarshal([]byte(savRaw), &b)
+			if !reflect.DeepEqual(a, b) {
+				r.Violation("offered-status-differs-from-persisted", fmt.Sprintf("state id %d: the members were offered %s but storage holds %s", post.ID, offRaw, savRaw), wit())
+			}
+			r.Count("offered_vs_persisted_compared_fieldwise", 1)
 		}
 		r.Count("new_pairs_checked_fresh_persisted_offered", 1)
 	}
@@ -925,6 +1002,10 @@ func (w *world) judgeTransition(ci callInfo, pre, post pair, c cond, permOK bool
 			r.Count("skipped_ambiguous_label_key_change_enters_async", 1)
 			return
 		}
+	}
+	if c.Ambiguous != "" && post.State != stSync {
+		r.Count("skipped_ambiguous_config_"+c.Ambiguous, 1)
+		return
 	}
 	from := pre.State
 	if !pre.dr() {
